@@ -77,7 +77,7 @@ pub fn universe(sc: &uni::Scratch, name: &str) -> Tree {
 			let _f7 = tb.add("f7", Some(f6), &BlockSpec::empty(57));
 			tb.finish()
 		}
-		"long" => {
+		"long" | "long+w" => {
 			// 90-block main chain (Chain::compact needs head >= tail + horizon + 60) with spends
 			// of early coinbases both before and inside the horizon, then a short extension and a fork
 			let mut tb = TreeBuilder::new(sc, 22, false);
@@ -119,6 +119,16 @@ pub fn universe(sc: &uni::Scratch, name: &str) -> Tree {
 			let y90 = tb.add("y90", Some(x89), &BlockSpec::with(190, vec![uni::spend_coinbase(&kc, 80, REWARD, &[(1080, REWARD - m)], 180)]));
 			let y91 = tb.add("y91", Some(y90), &BlockSpec::empty(191));
 			let _y92 = tb.add("y92", Some(y91), &BlockSpec::empty(192));
+			if name == "long+w" {
+				// a fork that starts exactly at the horizon of head x90 (its parent is x70, the block a
+				// compaction at x90 keeps as the body tail) and overtakes the main chain at height 91;
+				// w75 spends a coinbase from below the horizon that the main chain never spends
+				let mut prev = tb.tree.blocks.iter().position(|b| b.name == "x70");
+				for h in 71..=91u32 {
+					let spec = if h == 75 { BlockSpec::with(300 + h, vec![uni::spend_coinbase(&kc, 20, REWARD, &[(1020, REWARD - m)], 120)]) } else { BlockSpec::empty(300 + h) };
+					prev = Some(tb.add(&format!("w{}", h), prev, &spec));
+				}
+			}
 			tb.finish()
 		}
 		_ => panic!("unknown universe"),
